@@ -807,6 +807,7 @@ fn main() {
         "simulated_time_ms": "n/a: the binary reads no clock; order is the shim's global call sequence number",
         "real_components": ["the zeep binary built from the working tree (main.rs, clap, env_logger, std, zeep-lib)", "zeep-lib in-process as the reference for expected bytes"],
         "stub_components": ["OS boundary: libverifsim.so interposing open/read/write/writev/close/opendir/readdir/stat*/getrandom"],
+        "batch_digest": format!("{:016x}", stats.digest),
         "determinism_selfcheck": {"cases_repeated": slice.len(), "worker_counts": [simkernel::workers(), 5], "mismatches": mism},
         "violating_cases_before_dedup": stats.found.len(),
     });
